@@ -178,3 +178,121 @@ Fixpoint failing_from {A} (i : nat) (f : A -> verdict) (l : list A) : list (nat 
       | v => (i, v) :: failing_from (S i) f r
       end
   end.
+
+(** * Histories: several kernels on the same tensors (C04: assemble; compute^n), re-valued inputs *)
+
+Definition set_input_vals (st : state) (id : positive) (vals : list F) : state :=
+  match PM.find id (tensors st) with
+  | Some ts =>
+      match t_vals ts with
+      | VPtr blk 0 =>
+          match PM.find blk (heap st) with
+          | Some b =>
+              with_heap st (PM.add blk
+                (mkBlock true (b_len b) (cells_from (fun f => VFloat (fcanon f)) vals 0 (PM.empty _))
+                         true (b_input b)) (heap st))
+          | None => st
+          end
+      | _ => st
+      end
+  | None => st
+  end.
+
+Inductive run_result : Type :=
+  | RDone (st : state)
+  | RBad (v : verdict).
+
+Fixpoint run_steps (fuel : Z) (steps : list (function_definition * list (positive * list F)))
+         (args : list value) (st : state) : run_result :=
+  match steps with
+  | [] => RDone st
+  | (f, revals) :: r =>
+      let st1 := fold_left (fun s '(id, vs) => set_input_vals s id vs) revals st in
+      match call (fuel_of fuel) f args st1 with
+      | Returned st' (VInt 0) _ => run_steps fuel r args st'
+      | Returned _ _ _ => RBad (VMismatch "return value")
+      | Normal _ _ => RBad VNoReturn
+      | Fail e => RBad (VFail e)
+      | OutOfFuel => RBad VFuel
+      end
+  end.
+
+Definition run_history (fuel : Z) (steps : list (function_definition * list (positive * list F)))
+           (ts : list tin) (exp : list (option (list Z * list Z))) (vals : list F) (exact_vals : bool)
+  : verdict :=
+  let '(st, args) := init_state ts in
+  match run_steps fuel steps args st with
+  | RDone st' => check_output st' 1%positive exp vals exact_vals
+  | RBad v => v
+  end.
+
+(** The structure (pos/crd blocks: identity, length, contents) and vals block identity of the
+    output, for "compute never changes or reallocates the structure it is given". *)
+Definition structure_of (st : state) : option (list (value * value) * value * list (option block)) :=
+  match PM.find 1%positive (tensors st) with
+  | None => None
+  | Some ts =>
+      let blocks := flat_map (fun '(p, c) =>
+                      [match p with VPtr b _ => PM.find b (heap st) | _ => None end;
+                       match c with VPtr b _ => PM.find b (heap st) | _ => None end]) (t_idx ts) in
+      Some (t_idx ts, t_vals ts, blocks)
+  end.
+
+Definition value_eqb (a b : value) : bool :=
+  match a, b with
+  | VInt x, VInt y => x =? y
+  | VPtr b1 o1, VPtr b2 o2 => Pos.eqb b1 b2 && (o1 =? o2)
+  | VNull, VNull => true
+  | VBool x, VBool y => Bool.eqb x y
+  | VFloat x, VFloat y => same_float (Some (VFloat x)) y
+  | _, _ => false
+  end.
+
+Definition block_eqb (a b : option block) : bool :=
+  match a, b with
+  | None, None => true
+  | Some x, Some y =>
+      (b_len x =? b_len y) && Bool.eqb (b_live x) (b_live y)
+      && all2 (fun c d => match c, d with
+                          | None, None => true
+                          | Some u, Some v => value_eqb u v
+                          | _, _ => false end)
+              (read_cells x (b_len x)) (read_cells y (b_len y))
+  | _, _ => false
+  end.
+
+(** assemble, then compute: the structure after compute is the structure after assemble *)
+Definition compute_preserves_structure (fuel : Z) (fa fc : function_definition) (ts : list tin) : verdict :=
+  let '(st, args) := init_state ts in
+  match run_steps fuel [(fa, [])] args st with
+  | RBad v => v
+  | RDone st1 =>
+      match run_steps fuel [(fc, [])] args st1 with
+      | RBad v => v
+      | RDone st2 =>
+          match structure_of st1, structure_of st2 with
+          | Some (i1, v1, b1), Some (i2, v2, b2) =>
+              if negb (all2 (fun '(p, c) '(p', c') => value_eqb p p' && value_eqb c c') i1 i2)
+              then VMismatch "compute changed an indices field"
+              else if negb (value_eqb v1 v2) then VMismatch "compute changed the vals field"
+              else if negb (all2 block_eqb b1 b2) then VMismatch "compute changed a pos/crd block"
+              else if negb (Pos.eqb (next_blk st1) (next_blk st2)) then VMismatch "compute allocated"
+              else VOk
+          | _, _ => VMismatch "no output tensor"
+          end
+      end
+  end.
+
+(** executed loop iterations of one run (C16) *)
+Definition run_iters (fuel : Z) (f : function_definition) (ts : list tin) : option Z :=
+  let '(st, args) := init_state ts in
+  match call (fuel_of fuel) f args st with
+  | Returned st' (VInt 0) _ => Some (iters st')
+  | _ => None
+  end.
+
+Definition same_iters (fuel : Z) (f : function_definition) (ts1 ts2 : list tin) : verdict :=
+  match run_iters fuel f ts1, run_iters fuel f ts2 with
+  | Some a, Some b => if a =? b then VOk else VMismatch "iteration counts differ"
+  | _, _ => VMismatch "run failed"
+  end.
